@@ -148,6 +148,7 @@ class C13(Prop):
     constants = {'C_RESULT': C_RESULT, 'C_INPUT': C_INPUT, 'C_HONEST': C_HONEST, 'NONTRIV': NONTRIV,
                  'GUARD_BOUND': GUARD_BOUND, 'MAG': MAG, 'GUARD_WIDEN': 4}
     examples = {'quick': 3500, 'thorough': 40000}
+    fuzz = {'thorough': 30000}        # atheris executions (secondary engine, thorough tier)
 
     def strategy(self, tier):
         return st.one_of(geo_case(), geo_case(), total_case())
